@@ -21,5 +21,27 @@ def rep(s,name,body):
     i,j=s.index(a),s.index(b)
     return s[:i+len(a)]+'\n'+body+'\n'+s[j:]
 s=rep(s,'FIXTABLE',fixes); s=rep(s,'SEEDTABLE',seeded)
+# mutation sweep summary
+import collections
+try:
+    cnt=collections.Counter(); by=collections.Counter(); n=0
+    for l in open('/verif/mutsweep/results.jsonl'):
+        r=json.loads(l); n+=1; o=r['outcome']; cnt[o.split(':')[0]]+=1
+        if o.startswith('killed-by:'): by[o.split(':')[1]]+=1
+    alive=cnt['killed-by']+cnt['survived']+cnt['not-reached']
+    ms=(f"Result so far ({n} of 1072 mutants run, seeded random order): {cnt['stillborn']+cnt.get('stillborn-verif',0)} stillborn, {cnt['killed-by-tests']} killed by the baseline suite, "
+        f"**{cnt['killed-by']} of the remaining {alive} killed by a quick check** ({cnt['survived']} survived, {cnt['not-reached']} on lines no check reaches). "
+        f"Kills per check: "+", ".join(f"{k} {v}" for k,v in sorted(by.items()))+".")
+    s=rep(s,'MUTSUMMARY',ms)
+except FileNotFoundError: pass
+try:
+    ne=json.load(open('/verif/seeded/NEUTRAL.json'))
+    sil=[k for k,v in ne.items() if not v['alarms']]; al={k:v for k,v in ne.items() if v['alarms']}
+    runs=sum(len(v['checks']) for v in ne.values())
+    ns=f"Result: {len(sil)} of {len(ne)} refactorings left every check silent ({runs} check runs in total)."
+    if al:
+        ns+=" Alarms: "+"; ".join(f"{k}: "+", ".join(f"{a['check']} rc={a['rc']} {a['keys'][:2]}" for a in v['alarms']) for k,v in sorted(al.items()))+" — see the discussion below."
+    s=rep(s,'NEUTRALSUMMARY',ns)
+except FileNotFoundError: pass
 open(p,'w').write(s)
 print(len(rows),'seeded rows',len(frows),'fix rows')
